@@ -357,6 +357,16 @@ fn decode_batch(b: &Value, uni: &[Key], tag: u64) -> Batch {
         let size = a.get(2).and_then(|x| x.as_u64()).map(|x| x as usize);
         let key = uni[ki];
         let vtag = tag.wrapping_mul(131).wrapping_add(ki as u64);
+        if code == "wn" || code == "rn" {
+            // a run of `size` consecutive universe keys written (3-byte values) / read
+            for j in 0..size.unwrap() {
+                if let Some(k) = uni.get(ki + j) {
+                    let vt = tag.wrapping_mul(131).wrapping_add((ki + j) as u64);
+                    out.push((*k, if code == "wn" { Act::Write(Some(util::value(vt, 3))) } else { Act::Read }));
+                }
+            }
+            continue;
+        }
         if code == "dn" {
             for j in 0..size.unwrap() {
                 if let Some(k) = uni.get(ki + j) {
@@ -646,7 +656,7 @@ impl Exec {
                             session.warm_up(*k);
                         }
                     }
-                    std::thread::sleep(std::time::Duration::from_millis(1));
+                    std::thread::sleep(std::time::Duration::from_micros(1000 + 25 * batch.len() as u64));
                     self.out.goals.push(if every_second { "warm-up:every-second-key" } else { "warm-up:all-keys" });
                 }
                 let actuals = driver::Db::<B3>::actuals(&session, &batch, &self.model.kv)
